@@ -1,7 +1,15 @@
 (* What the generated Python classes ACCEPT (audit 2, C01 #5): the property setters raise ValueError for integers outside the wire
    range and for finite floats outside the wire range WHATEVER the cast mode (base.j2 l.352-372), `assign_array` refuses arrays
    above the capacity / of the wrong length and out-of-range elements (l.118-140), a union holds exactly one of its variants.
-   So the objects a Python serializer ever sees satisfy `py_accepts`; `err rejected` of the harness is the complement.
+   `py_accepts` is what an ASSIGNMENT admits; `err rejected` of the harness is its complement.
+   CORRECTION (audit 3, C01 #2): it is NOT an invariant of the objects the serializer sees.  `assign_array` binds a caller ndarray of
+   the right dtype BY REFERENCE (base.j2 l.108-113 "Fast binding ... Beware of the shared reference"; bytes/bytearray via frombuffer),
+   and `o.t[0] = 200` / `src[1] = 200` after the assignment bypass every setter: an element of a `uint7[3]` (dtype uint8) can hold
+   any uint8.  So for ARRAY ELEMENTS the reachable domain is the NumPy dtype range (`py_elem_reachable`: the storage type of width
+   std_width w), for scalar fields it is `py_in_range` (scalars are immutable Python numbers: only the setter writes them).
+   On that wider domain the saturating / truncating branch of the element loop IS reachable (`py_saturation_live_example`: uint7
+   holding 200 -> 127 saturated, 72 truncated, as the real code does); `py_walk_ser_refines` has no value proviso and covers it.
+   `py_saturation_dead` below is therefore a statement about SCALAR fields and about arrays immediately after assignment only.
    The range predicates are C18's (Gen/PyObj.v `int_in_range`: `urange` / `srange`, proved there to be exactly when the setter
    raises); here they are restated on the codec vocabulary, with:
      `py_accepts_valid`          accepted objects are valid values (no length / tag / shape error can occur);
@@ -12,6 +20,7 @@
    float16/32 scalars: the stored Python float is a binary64; `VFlt x` is the binary32 pattern struct.pack rounds it to - the range
    test of the setter is on the binary64 value, modelled on the binary32 pattern (in range iff finite magnitude <= 65504 for
    float16; every finite binary32 is in range for float32). *)
+From Verif Require Walker.
 From Verif Require Import Wire WireThm WireThmValid TargetPre TargetPreThm PyWalker PyWalkerThm PyWalkerPre.
 From Verif Require PyObj.
 From Coq Require Import Lia ZifyBool ZifyNat ZifyN.
@@ -61,6 +70,22 @@ Proof.
   rewrite (py_walk_ser_pre_refines_on Q u fs ext v cap Ha Hh Hb Hwf Hge), (py_pre_id _ _ Htie).
   unfold ser_spec. destruct (Nat.ltb_spec (8 * cap) (bmax (TComp u fs ext))); [lia | exact E].
 Qed.
+
+(* what an element of an array field can hold when the caller mutates the bound ndarray in place: any value of the NumPy dtype *)
+Definition py_elem_reachable (p : prim) (v : val) : bool :=
+  match p, v with
+  | PU w _, VInt z => (0 <=? z)%Z && (z <? pow2 (Walker.std_width w))%Z
+  | PS w _, VInt z => (- pow2 (Walker.std_width w - 1) <=? z)%Z && (z <? pow2 (Walker.std_width w - 1))%Z
+  | _, _ => true
+  end.
+
+(* the saturating / truncating branch of the element loop is reachable and computes the specification's cast *)
+Example py_saturation_live_example :
+  py_elem_reachable (PU 7 true) (VInt 200) = true /\ py_in_range (PU 7 true) (VInt 200) = false /\
+  py_enc_prim (PU 7 true) (VInt 200) = Ok (bits_of_N 7 127) /\ py_enc_prim (PU 7 false) (VInt 200) = Ok (bits_of_N 7 72) /\
+  py_enc_prim (PS 5 true) (VInt (-100)) = Ok (bits_of_N 5 16) /\
+  enc_prim (PU 7 true) (VInt 200) = Ok (bits_of_N 7 127) /\ enc_prim (PU 7 false) (VInt 200) = Ok (bits_of_N 7 72).
+Proof. vm_compute. repeat split; reflexivity. Qed.
 
 (* the integer ranges are C18's: Gen/PyObj.v `urange w z = (0 <=? z) && (z <=? 2^w - 1)`, `srange w z = (-2^(w-1) <=? z) && (z <=?
    2^(w-1) - 1)`, about which PyObjThm*.v proves that the generated setter raises ValueError exactly outside them *)
